@@ -46,10 +46,12 @@ theorem fromMITo3d_labelled {n c t : Nat} {X : Arr3 α} (hX : Rect3 n c t X) (hn
     (hl : names.length = c) (labels : List Int) (hll : labels.length = n) (hnd : labels.Nodup) :
     fromMITo3d (miOfL i tm names labels X) (some i) (some tm) = .ok X := by
   have hX' := rect_swap hX
-  have hflat : ((miOfL i tm names labels X).rows.map (·.2)).flatten
+  have hflat : (groupRows ((relabelInstances labels (miRows X)).map (·.1.1))
+        ((miOfL i tm names labels X).rows.map (·.2))).flatten
       = (X.map (transposeW t)).flatten.flatten := by
-    show ((relabelInstances labels (miRows X)).map (·.2)).flatten = _
-    rw [relabel_vals, miRows_vals, rect_nTime hX hn hc]
+    show (groupRows _ ((relabelInstances labels (miRows X)).map (·.2))).flatten = _
+    rw [relabel_vals, miRows_vals, rect_nTime hX hn hc, relabel_inst hX hn hc labels hll,
+      groupRows_canonical hX ht labels hll hnd]
   have hI : levelVals (miOfL i tm names labels X) i
       = .ok ((relabelInstances labels (miRows X)).map (·.1.1)) := by
     simp [levelVals, miOfL, hne, pure, Except.pure]
